@@ -36,6 +36,14 @@ def bfsWithMarks (H : UG) (start : Nat) (check : List Nat) : List Nat :=
 def subset (A B : List Nat) : Bool := A.all (· ∈ B)
 def setEq (A B : List Nat) : Bool := subset A B && subset B A
 
+/-- the last three lines: `if not m_separated(...): return None; return z` (an exception of
+    `m_separated` – cyclic directed layer – propagates) -/
+def finish (r : Except String Bool) (Z : List Nat) : Except String (Option (List Nat)) :=
+  match r with
+  | .error e => .error e
+  | .ok false => .ok none
+  | .ok true => .ok (some Z)
+
 /-- `minimal_m_separator(G, x, y, i, r)` -/
 def minimalMSep (G : MG) (x y : Nat) (I R : List Nat) : Except String (Option (List Nat)) :=
   if !subset I R then .error "i-not-in-r" else
@@ -45,10 +53,7 @@ def minimalMSep (G : MG) (x y : Nat) (I R : List Nat) : Except String (Option (L
   let zp := (R.filter (· ∈ anterior Gc (x :: y :: I))).filter (fun v => v ≠ x ∧ v ≠ y)   -- z_prime
   let zdp := bfsWithMarks aug x zp                        -- z_dprime
   let z := bfsWithMarks aug y zdp
-  match MG.mSeparatedE G [x] [y] (z ++ I) with            -- final TESTSEP on G given z ∪ i
-  | .error e => .error e
-  | .ok false => .ok none
-  | .ok true => .ok (some (z ++ I))
+  finish (MG.mSeparatedE G [x] [y] (z ++ I)) (z ++ I)     -- final TESTSEP on G given z ∪ i
 
 /-- `is_minimal_m_separator(G, x, y, z, i, r)` with its early exits -/
 def isMinimalMSep (G : MG) (x y : Nat) (Z I R : List Nat) : Except String Bool :=
